@@ -123,6 +123,10 @@ pub fn run(ctx: &mut Ctx) {
         ctx.run_prop(s, (k_conv / 3 / ctx.nshards).max(6), |ctx, c| oracle(ctx, c));
     }
     ctx.extra.insert("box_kinds".into(), serde_json::json!(KINDS.len()));
+    let skipped = libbox::SLOW_REENCODE_SKIPPED.with(|c| c.get());
+    if skipped > 0 {
+        *ctx.excluded.entry("converse: trun without per-sample fields and sample_count > 2^20 (the encoder iterates sample_count times; write-side CPU time is outside the listed properties)".to_string()).or_insert(0) += skipped;
+    }
 }
 
 pub fn replay(ctx: &mut Ctx, stage: &str, case: &Value) -> Check {
